@@ -66,7 +66,7 @@ var clauseKW = map[string]bool{
 	"ghost": true, "callee_may_panic": true, "opaque_effects": true, "never_errors": true,
 	"before": true,
 }
-var topKW = map[string]bool{"func": true, "pred": true, "package": true, "axiom": true, "lemma": true}
+var topKW = map[string]bool{"func": true, "pred": true, "package": true, "axiom": true, "lemma": true, "functype": true, "writers": true}
 
 // Load reads every zz_verif_*.go file in dir.
 func Load(dir, pkg string) (*DB, error) {
@@ -178,6 +178,49 @@ func (db *DB) loadFile(path string) error {
 			}
 			db.Funcs[lname] = cur
 			db.Order = append(db.Order, lname)
+		case "writers":
+			// writers T.Field: f, (*T).m, g$1 ...  -- the only functions of the package that may write the field
+			k := strings.Index(rest, ":")
+			if k < 0 {
+				return fail(fmt.Errorf("writers Type.Field: functions"))
+			}
+			wname := "writers:" + strings.TrimSpace(rest[:k])
+			cur = &FuncSpec{Pkg: db.Pkg, Name: wname, Flags: map[string]bool{"writers": true}, Attrs: map[string]string{}, File: path, Line: it.line}
+			var by []string
+			for _, w := range strings.Split(rest[k+1:], ",") {
+				if w = strings.TrimSpace(w); w != "" {
+					by = append(by, w)
+				}
+			}
+			cur.Attrs["by"] = strings.Join(by, ";")
+			db.Funcs[wname] = cur
+			db.Order = append(db.Order, wname)
+			cur = nil
+		case "functype":
+			// functype Name(params) results: an ASSUMED contract of every value of the named function
+			// type (the engine cannot see the code behind a function value); only ensures clauses
+			op := strings.Index(rest, "(")
+			cl := strings.Index(rest, ")")
+			if op < 0 || cl < op {
+				return fail(fmt.Errorf("functype Name(params) results"))
+			}
+			tname := "type:" + strings.TrimSpace(rest[:op])
+			cur = &FuncSpec{Pkg: db.Pkg, Name: tname, Flags: map[string]bool{"trusted": true}, Attrs: map[string]string{}, File: path, Line: it.line}
+			var ps []string
+			for _, pa := range strings.Split(rest[op+1:cl], ",") {
+				if pa = strings.TrimSpace(pa); pa != "" {
+					ps = append(ps, pa)
+				}
+			}
+			cur.Attrs["params"] = strings.Join(ps, ",")
+			for _, ra := range strings.Split(rest[cl+1:], ",") {
+				if ra = strings.TrimSpace(ra); ra != "" {
+					cur.Results = append(cur.Results, ra)
+				}
+			}
+			db.Funcs[tname] = cur
+			db.Order = append(db.Order, tname)
+			db.Assume = append(db.Assume, "assumed contract of every value of function type "+strings.TrimSpace(rest[:op]))
 		case "func":
 			name := rest
 			// drop optional parameter/result lists: keep up to the method name
